@@ -5,9 +5,13 @@ they are never used.  ``build(kind, dest_dir)`` copies the .pyx/.pxd/.pxi/crc32c
 ``repoimport.REPO_ROOT`` into ``dest_dir/src``, cythonizes and compiles them
 
   kind == "plain":  default compiler, -O2
-  kind == "asan":   clang -O1 -g -fno-omit-frame-pointer -fsanitize=address, linked
-                    -fsanitize=address -shared-libasan   (AddressSanitizer only; UBSan is not part
-                    of any verdict: hton.pxd stores through unaligned uint16_t*/uint32_t* on purpose)
+  kind == "asan":   clang -O1 -g -fno-omit-frame-pointer -fsanitize=address
+                    -fsanitize-recover=address, linked -fsanitize=address -shared-libasan
+                    (AddressSanitizer only; UBSan is not part of any verdict: hton.pxd stores through
+                    unaligned uint16_t*/uint32_t* on purpose).  -fsanitize-recover only has an effect
+                    when the process runs with ASAN_OPTIONS=halt_on_error=0 (asan_env(recover=True)):
+                    then a bad access is reported and execution continues, which lets one process
+                    judge thousands of hostile inputs (report attributed per case via the log size).
 
 and returns the directory holding the four extension modules.  ``install_finder(dir)`` puts a
 ``sys.meta_path`` finder in front that maps ONLY ``aiokafka.record._crecords.<mod>`` (cutil,
@@ -45,7 +49,7 @@ _BUILD_SCRIPT = textwrap.dedent(
 
     kind = sys.argv.pop(1)
     if kind == "asan":
-        cflags = ["-O1", "-g", "-fno-omit-frame-pointer", "-fsanitize=address"]
+        cflags = ["-O1", "-g", "-fno-omit-frame-pointer", "-fsanitize=address", "-fsanitize-recover=address"]
         ldflags = ["-fsanitize=address", "-shared-libasan"]
     else:
         cflags = ["-O2"]
@@ -157,10 +161,16 @@ def assert_served(lib_dir: str) -> None:
             raise RuntimeError(f"{PKG}.{m} loaded from {got}, expected {real}")
 
 
-def asan_env(log_path: str | None = None, extra_options: str = "") -> dict:
-    """Environment for an interpreter that loads the ASan build (merge into os.environ)."""
-    opts = ["detect_leaks=0", "symbolize=1", "allocator_may_return_null=1", "handle_abort=1",
-            "abort_on_error=0", "print_summary=1"]
+def asan_env(log_path: str | None = None, extra_options: str = "", recover: bool = False,
+             symbolize: bool = True) -> dict:
+    """Environment for an interpreter that loads the ASan build (merge into os.environ).
+
+    recover=True: halt_on_error=0 and suppress_equal_pcs=0 (EVERY bad access is reported, also a
+    repeated one at the same pc) - the process survives non-fatal reports."""
+    opts = ["detect_leaks=0", "symbolize=1" if symbolize else "symbolize=0", "allocator_may_return_null=1",
+            "handle_abort=1", "abort_on_error=0", "print_summary=1", "print_legend=0"]
+    if recover:
+        opts += ["halt_on_error=0", "suppress_equal_pcs=0"]
     if log_path:
         opts.append("log_path=" + log_path)
     if extra_options:
